@@ -354,6 +354,7 @@ func TestC13Sync(t *testing.T) {
 					it, err := src.GetWriteLog(ctx, start, endRoot)
 					if err != nil {
 						rec.Label(fmt.Sprintf("not-served(%s,%s):%s", srcBackend, when, errClass(err)))
+						rec.Label(fmt.Sprintf("not-served-detail(%s,%s):commit-log-entries=%d,start-empty=%v,same-root=%v", srcBackend, when, min(len(commitLog), 2), start.Hash.IsEmpty(), start.Hash == rh))
 						if !errors.Is(err, dbApi.ErrWriteLogNotFound) {
 							// "no log for this pair" is an answer (logs discarded by configuration, a pending root that is not
 							// the first candidate of its version); a log that IS stored and cannot be read back is not
